@@ -109,3 +109,165 @@ impl<K: Eq + Borrow<Q>, Q: ?Sized + Eq, V> Index<&Q> for AHashMap<K, V> {
         self.get(k).expect("no entry found for key")
     }
 }
+
+// ---------------------------------------------------------------------------------------------
+/// Association-list stand-in for `ahash::AHashSet`.
+///
+/// ITERATION ORDER IS NONDETERMINISTIC under Kani: a hash set iterates in an order that depends on
+/// the hasher's random seed, so `iter()` / `into_iter()` start at an arbitrary element (a
+/// `kani::any()` rotation, chosen independently on every call). Code whose observable result
+/// depends on the iteration order of a hash set therefore shows up as a difference between two
+/// otherwise identical runs (the C20 twin harnesses). Natively the rotation is 0.
+#[derive(Debug, Clone)]
+pub struct AHashSet<T> {
+    items: Vec<T>,
+}
+
+impl<T> Default for AHashSet<T> {
+    fn default() -> Self {
+        AHashSet { items: Vec::new() }
+    }
+}
+
+#[cfg(kani)]
+fn any_rotation(len: usize) -> usize {
+    if len == 0 {
+        return 0;
+    }
+    let k: usize = kani::any();
+    kani::assume(k < len);
+    k
+}
+#[cfg(not(kani))]
+fn any_rotation(_len: usize) -> usize {
+    0
+}
+
+impl<T: Eq> AHashSet<T> {
+    pub fn new() -> Self {
+        Default::default()
+    }
+    fn pos<Q: ?Sized + Eq>(&self, k: &Q) -> Option<usize>
+    where
+        T: Borrow<Q>,
+    {
+        let mut i = 0;
+        while i < self.items.len() {
+            if self.items[i].borrow() == k {
+                return Some(i);
+            }
+            i += 1;
+        }
+        None
+    }
+    pub fn insert(&mut self, v: T) -> bool {
+        if self.pos(&v).is_some() {
+            false
+        } else {
+            self.items.push(v);
+            true
+        }
+    }
+    pub fn remove<Q: ?Sized + Eq>(&mut self, k: &Q) -> bool
+    where
+        T: Borrow<Q>,
+    {
+        match self.pos(k) {
+            Some(i) => {
+                self.items.swap_remove(i);
+                true
+            }
+            None => false,
+        }
+    }
+    pub fn contains<Q: ?Sized + Eq>(&self, k: &Q) -> bool
+    where
+        T: Borrow<Q>,
+    {
+        self.pos(k).is_some()
+    }
+    pub fn len(&self) -> usize {
+        self.items.len()
+    }
+    pub fn is_empty(&self) -> bool {
+        self.items.is_empty()
+    }
+    pub fn clear(&mut self) {
+        self.items.clear();
+    }
+    pub fn iter(&self) -> SetIter<'_, T> {
+        SetIter { items: &self.items, start: any_rotation(self.items.len()), done: 0 }
+    }
+}
+
+pub struct SetIter<'a, T> {
+    items: &'a [T],
+    start: usize,
+    done: usize,
+}
+impl<'a, T> Iterator for SetIter<'a, T> {
+    type Item = &'a T;
+    fn next(&mut self) -> Option<&'a T> {
+        if self.done >= self.items.len() {
+            return None;
+        }
+        let i = (self.start + self.done) % self.items.len();
+        self.done += 1;
+        Some(&self.items[i])
+    }
+}
+pub struct SetIntoIter<T> {
+    items: Vec<Option<T>>,
+    start: usize,
+    done: usize,
+}
+impl<T> Iterator for SetIntoIter<T> {
+    type Item = T;
+    fn next(&mut self) -> Option<T> {
+        if self.done >= self.items.len() {
+            return None;
+        }
+        let i = (self.start + self.done) % self.items.len();
+        self.done += 1;
+        self.items[i].take()
+    }
+    fn size_hint(&self) -> (usize, Option<usize>) {
+        let n = self.items.len() - self.done;
+        (n, Some(n))
+    }
+}
+impl<T: Eq> IntoIterator for AHashSet<T> {
+    type Item = T;
+    type IntoIter = SetIntoIter<T>;
+    fn into_iter(self) -> SetIntoIter<T> {
+        let start = any_rotation(self.items.len());
+        let mut items = Vec::with_capacity(self.items.len());
+        for v in self.items {
+            items.push(Some(v));
+        }
+        SetIntoIter { items, start, done: 0 }
+    }
+}
+impl<'a, T: Eq> IntoIterator for &'a AHashSet<T> {
+    type Item = &'a T;
+    type IntoIter = SetIter<'a, T>;
+    fn into_iter(self) -> SetIter<'a, T> {
+        self.iter()
+    }
+}
+impl<T: Eq> std::iter::FromIterator<T> for AHashSet<T> {
+    fn from_iter<I: IntoIterator<Item = T>>(iter: I) -> Self {
+        let mut s = AHashSet::new();
+        for v in iter {
+            s.insert(v);
+        }
+        s
+    }
+}
+impl<T: Eq> Extend<T> for AHashSet<T> {
+    fn extend<I: IntoIterator<Item = T>>(&mut self, iter: I) {
+        for v in iter {
+            self.insert(v);
+        }
+    }
+}
